@@ -515,12 +515,17 @@ def run(ctx):
     wide = [(ctx.seed, i, ctx.n(700, 14000), ctx.n(3, 12)) for i in range(nsh)]
     for r in pmap('harness.c18_wide', 'shard', wide):
         res.merge(r)
+    for r in pmap('harness.c18_wide', 'exhaustive_shard', [(i, nsh, ctx.n(6, 8), ctx.n(5, 6)) for i in range(nsh)]):
+        res.merge(r)
     L = ctx.n(4, 6)
     for r in pmap('harness.props.c18', 'exhaustive_shard', [(i, nsh, L) for i in range(nsh)]):
         res.merge(r)
     res.rule = ('random strings/operands over an alphabet rich in & < > " ; # and entity fragments, all operator/operand-kind '
                 'combinations, every Unicode scalar in 256-character chunks, all strings of length <= %d over %r; '
-                'non-trivial = contains a character that escaping changes (or an Attrs case); distinct by canonical JSON' % (L, CRIT))
+                'non-trivial = contains a character that escaping changes (or an Attrs / QName / Namespace case); distinct by canonical JSON; '
+                'wave 4 (harness/c18_wide.py): every operator once per implementation with str / str-subclass / Markup / Markup-subclass / __html__ / None / int operands, '
+                'tag- and entity-like fragments, long strings, a fixed edge corpus, all strings of length <= 6 (8) over %r through striptags/plaintext and <= 5 (6) over %r through stripentities'
+                % (L, CRIT, c18_wide.TAGCRIT, c18_wide.ENTCRIT))
     res.samples = res.samples[:6]
     return res
 
